@@ -27,6 +27,8 @@ func runC02(c *Ctx) {
 	syncResultRules(c)
 	c02Snapshot(c)
 	c02Locks(c)
+	// no commit is checkpointed away between the sealed copy and the WAL restart
+	checkpointProtocolRules(c)
 }
 
 func c02Snapshot(c *Ctx) {
